@@ -171,8 +171,8 @@ def judge(c, drained=None):
                 return (i, "purge reported %s, the queue holds %d" % (out[1:], len(spec))), trig
             if sw_before:
                 trig.add("F24b")
-            if c.durable and (pendP_all or any(n in pers for n in outst)):
-                trig.add("F41")      # pending store entries survive the purge / unsettled deliveries lose theirs: visible at the next restart
+            if c.durable and any(n in pers for n in outst):
+                trig.add("F41u")     # the purge erases the store entries of unsettled persistent deliveries: visible at the next restart
             spec = []
         elif l == "L":
             proceeds = sw_before and ring_before < c.maxram // 2
@@ -324,6 +324,7 @@ def run(res):
     res.assumptions += ["maxMessagesInRAM >= 2 (F40 otherwise)",
                         "no loader turn proceeds while an overflowed message is still unflushed, either store (F24 otherwise)",
                         "no purge while the queue is swapped to disk (F24 otherwise)",
+                        "label lists with restarts: durable queue; no purge while a persistent message is delivered and unsettled (F41-unsettled otherwise)",
                         "no push lands between the iterations and the final flag write of a proceeding loader turn (the loader takes no lock: F24-race otherwise)",
                         "the engine implements IterateByPrefixFrom / DeleteByPrefix / KeysByPrefixCount (badger does; the buntdb wrapper has stubs: F23)",
                         "client well-formedness: ids positive and increasing (GenerateSeq), only delivered unsettled messages are requeued or acked",
